@@ -1,6 +1,8 @@
 package rv
 
 import (
+	"fmt"
+	"go/token"
 	"strings"
 
 	"golang.org/x/tools/go/ssa"
@@ -88,8 +90,8 @@ func flowsToCommand(v ssa.Value) (bool, string) {
 
 func init() {
 	Registry["C42"] = RuleDef{Module: "rueidiscompat", Run: runC42,
-		Technique:   "forward def-use flow from every parameter of every adapter command method to the command that is built (who-influences rule), with one named exception",
-		Explanation: "The oracle of this property (go-redis v9) is not in the sandbox, so the comparison itself cannot be made. Decided is one necessary condition that needs no oracle: (R42a) every parameter (other than the context) of every exported method of the adapter types Compat and CacheCompat influences the command that is sent - it flows into an argument of a command-builder method or of the client request, is invoked (callbacks), or decides a branch. A parameter that influences nothing makes two calls that differ in that argument send the same command, which a go-redis method never does with a parameter it declares.",
+		Technique:   "forward def-use flow from every parameter of every adapter command method to the command that is built (who-influences rule), with one named exception; unit agreement between duration conversions and a specification table of command positions",
+		Explanation: "The oracle of this property (go-redis v9) is not in the sandbox, so the comparison itself cannot be made. Decided is one necessary condition that needs no oracle: (R42a) every parameter (other than the context) of every exported method of the adapter types Compat and CacheCompat influences the command that is sent - it flows into an argument of a command-builder method or of the client request, is invoked (callbacks), or decides a branch. A parameter that influences nothing makes two calls that differ in that argument send the same command, which a go-redis method never does with a parameter it declares. (R42b) every time.Duration converted with formatSec/formatMs enters a command position whose unit - by a specification table taken from the Redis command reference - is the unit converted to; (R42c) formatSec and formatMs divide by their own unit and clamp below that same unit.",
 		NotDecided:  "command names, argument order and spelling, which builder option an argument selects - i.e. parity itself; only that no declared argument is ignored.",
 	}
 }
@@ -124,5 +126,207 @@ func runC42(r *Report) {
 		}
 	}
 	r.Anchor("R42a", "parameters of adapter methods (>= 900)", n >= 900)
+	durationUnitRule(r)
+	formatterRule(r)
 }
 
+
+// durationUnitRule (R42b): the adapter turns time.Duration arguments into integers with formatSec
+// or formatMs; the unit must be the one the Redis command defines for that position. The unit
+// table below is a specification table taken from the Redis command reference (trusted base).
+func durationUnitRule(r *Report) {
+	methodUnit := func(recv, method string) string {
+		switch {
+		case strings.Contains(method, "Milliseconds"):
+			return "ms"
+		case strings.Contains(method, "Seconds"):
+			return "s"
+		}
+		tbl := map[string]string{
+			"Restore.Ttl": "ms", "Xclaim.MinIdleTime": "ms", "Xautoclaim.MinIdleTime": "ms",
+			"Blpop.Timeout": "s", "Brpop.Timeout": "s", "Brpoplpush.Timeout": "s", "Bzpopmax.Timeout": "s", "Bzpopmin.Timeout": "s", "Blmove.Timeout": "s",
+			"Migrate.Timeout": "ms",     // MIGRATE host port key db timeout: milliseconds
+			"ClientPause.Timeout": "ms", // CLIENT PAUSE timeout: milliseconds
+			"Wait.Timeout": "ms", "Waitaof.Timeout": "ms",
+		}
+		for k, u := range tbl {
+			parts := strings.SplitN(k, ".", 2)
+			if method == parts[1] && strings.HasPrefix(recv, parts[0]) {
+				return u
+			}
+		}
+		return ""
+	}
+	tokenUnit := map[string]string{"PX": "ms", "EX": "s", "BLOCK": "ms", "IDLE": "ms", "MINIDLE": "ms", "BLMPOP": "s", "BZMPOP": "s", "BLMOVE": "s", "PEXPIRE": "ms", "EXPIRE": "s"}
+	n := 0
+	for _, fn := range r.P.ModuleFuncs() {
+		if !strings.HasPrefix(FuncName(fn), compatPkg+".") {
+			continue
+		}
+		for _, s := range CallSites(fn, compatPkg+".formatSec", compatPkg+".formatMs") {
+			used := "s"
+			if strings.HasSuffix(CalleeName(s.Call()), "formatMs") {
+				used = "ms"
+			}
+			n++
+			// follow the number to where it enters the command
+			want, where := "", ""
+			var follow func(v ssa.Value, depth int)
+			follow = func(v ssa.Value, depth int) {
+				if depth > 5 || want != "" || v.Referrers() == nil {
+					return
+				}
+				for _, ref := range *v.Referrers() {
+					switch x := ref.(type) {
+					case *ssa.Convert:
+						follow(x, depth+1)
+					case *ssa.Call:
+						nme := CalleeName(x)
+						switch {
+						case nme == "strconv.FormatInt" || nme == "strconv.FormatFloat" || nme == "strconv.Itoa":
+							follow(x, depth+1)
+						case strings.Contains(nme, "rueidis/internal/cmds.("):
+							// "rueidis/internal/cmds.(ClientPause).Timeout"
+							rest := nme[strings.Index(nme, "cmds.(")+6:]
+							recv := rest[:strings.Index(rest, ")")]
+							method := rest[strings.LastIndex(rest, ".")+1:]
+							if u := methodUnit(strings.TrimPrefix(recv, "*"), method); u != "" {
+								want, where = u, recv+"."+method
+							} else {
+								where = recv + "." + method
+							}
+						}
+					case *ssa.Store:
+						// an element of a variadic argument list: the token before it, or the command name
+						ia, ok := x.Addr.(*ssa.IndexAddr)
+						if !ok {
+							continue
+						}
+						idx, isc := ConstInt(ia.Index)
+						al, isal := ia.X.(*ssa.Alloc)
+						if !isc || !isal {
+							continue
+						}
+						var elems []ssa.Value
+						for _, ar := range *al.Referrers() {
+							if sl, issl := ar.(*ssa.Slice); issl {
+								elems = variadicElemsOrdered(sl)
+								// the call that receives the list
+								for _, sr := range *sl.Referrers() {
+									if c, isc := sr.(*ssa.Call); isc {
+										if idx > 0 && int(idx-1) < len(elems) {
+											if tok, ist := ConstString(elems[idx-1]); ist {
+												if u, known := tokenUnit[strings.ToUpper(tok)]; known {
+													want, where = u, "after token "+tok
+												}
+											}
+										}
+										if want == "" {
+											// the command name of the Arbitrary chain this list belongs to
+											// walk the receiver chain back to the Arbitrary(...) root
+											cur := ssa.Value(c)
+											for k := 0; k < 8 && want == ""; k++ {
+												cc, isCall := cur.(*ssa.Call)
+												if !isCall {
+													break
+												}
+												if strings.HasSuffix(CalleeName(cc), ".Arbitrary") && len(cc.Call.Args) >= 2 {
+													for _, tv := range variadicElemsOrdered(cc.Call.Args[len(cc.Call.Args)-1]) {
+														if tok, ist := ConstString(tv); ist {
+															if u, known := tokenUnit[strings.ToUpper(tok)]; known {
+																want, where = u, "argument of "+tok
+															}
+														}
+													}
+													break
+												}
+												if len(cc.Call.Args) == 0 {
+													break
+												}
+												cur = cc.Call.Args[0]
+											}
+										}
+									}
+								}
+							}
+						}
+					}
+				}
+			}
+			follow(s.Instr.(*ssa.Call), 0)
+			switch {
+			case want == "":
+				r.ObSite("R42b", s, "duration-unit:"+used, false, "cannot tell which command position this duration enters ("+where+"): unit undecided")
+			default:
+				r.ObSite("R42b", s, "duration-unit:"+used+"@"+where, want == used, fmt.Sprintf("%s takes its time in %s; the adapter converts the Duration with format%s", where, map[string]string{"s": "seconds", "ms": "milliseconds"}[want], map[string]string{"s": "Sec", "ms": "Ms"}[used]))
+			}
+		}
+	}
+	r.Anchor("R42b", "duration conversions in the adapter (>= 40)", n >= 40)
+}
+
+// formatterRule (R42c): formatSec / formatMs divide by their unit (1e9 / 1e6 ns) and clamp a positive
+// duration below one unit to 1 - the comparison and the division use the same unit. The body may
+// live in a shared unexported helper that is handed the unit.
+func formatterRule(r *Report) {
+	for name, unit := range map[string]int64{"formatSec": 1_000_000_000, "formatMs": 1_000_000} {
+		fn := r.FnAnchor("R42c", compatPkg+"."+name)
+		if fn == nil {
+			continue
+		}
+		body, bind := fn, map[ssa.Value]int64{}
+		// delegation: return helper(dur, <const unit>)
+		if len(fn.Blocks) == 1 {
+			for _, in := range fn.Blocks[0].Instrs {
+				if c, ok := in.(*ssa.Call); ok {
+					if h := c.Call.StaticCallee(); h != nil && h.Blocks != nil && h.Pkg == fn.Pkg && !isExportedName(h.Name()) {
+						body = h
+						for k, a := range c.Call.Args {
+							if v, isc := ConstInt(a); isc && k < len(h.Params) {
+								bind[h.Params[k]] = v
+							}
+						}
+					}
+				}
+			}
+		}
+		val := func(v ssa.Value) (int64, bool) {
+			if k, isc := ConstInt(v); isc {
+				return k, true
+			}
+			k, ok := bind[v]
+			return k, ok
+		}
+		nDiv, nCmp := 0, 0
+		okDiv, okCmp := true, true
+		for _, b := range body.Blocks {
+			for _, in := range b.Instrs {
+				bo, ok := in.(*ssa.BinOp)
+				if !ok {
+					continue
+				}
+				switch bo.Op {
+				case token.QUO:
+					nDiv++
+					if k, known := val(bo.Y); !known || k != unit {
+						okDiv = false
+					}
+				case token.LSS:
+					if k, known := val(bo.Y); known && k != 0 {
+						nCmp++
+						if k != unit {
+							okCmp = false
+						}
+					} else if !known {
+						if _, isz := ConstInt(bo.Y); !isz {
+							nCmp++
+							okCmp = false
+						}
+					}
+				}
+			}
+		}
+		r.Ob("R42c", fn, "divides-by-own-unit", fn.Pos(), nDiv == 1 && okDiv, fmt.Sprintf("%s divides the duration by %d ns", name, unit))
+		r.Ob("R42c", fn, "clamps-below-own-unit", fn.Pos(), nCmp == 1 && okCmp, fmt.Sprintf("%s rounds a positive duration below one unit (%d ns) up to 1, comparing with the same unit it divides by", name, unit))
+	}
+}
